@@ -28,9 +28,20 @@ func (c vfCam) ResX() int { return c.X }
 func (c vfCam) ResY() int { return c.Y }
 func (c vfCam) FPS() int  { return c.F }
 
-type vfClock struct{ now time.Time }
+// vfClock is the injected clock. With tick > 0 every reading is later than the one before (time passes while
+// a call is being served); the harness suspends that for its own look-aheads.
+type vfClock struct {
+	now   time.Time
+	tick  time.Duration
+	quiet bool
+}
 
-func (c *vfClock) Now() time.Time        { return c.now }
+func (c *vfClock) Now() time.Time {
+	if c.tick > 0 && !c.quiet {
+		c.now = c.now.Add(c.tick)
+	}
+	return c.now
+}
 func (c *vfClock) Sleep(d time.Duration) { c.now = c.now.Add(d) }
 
 // op kinds
@@ -40,6 +51,7 @@ const (
 	vfWrite = 2
 	vfStop  = 3
 	vfCheck = 4 // CheckCanRecord, as the motion processor asks before every start
+	vfEdge  = 5 // advance the clock to 1 ns before the budget reaches one minimum-length recording (if it is below)
 )
 
 type vfOp struct {
@@ -117,6 +129,7 @@ type vfThrCase struct {
 	StopFail  []int    `json:"stop_fail,omitempty"`  // ordinals of base StopRecording calls that fail
 	WriteFail []int    `json:"write_fail,omitempty"` // ordinals of base WriteFrame calls that fail
 	Sessions  bool     `json:"sessions"`             // caller keeps to start; write*; stop
+	TickNs    int64    `json:"tick_ns,omitempty"`    // every reading of the clock is this much later than the previous one
 }
 
 // base recorder mock
@@ -241,7 +254,7 @@ type vfThrRun struct {
 }
 
 func vfRunThrottle(c vfThrCase) *vfThrRun {
-	clock := &vfClock{now: time.Date(2021, 1, 1, 0, 0, 0, 0, time.UTC)}
+	clock := &vfClock{now: time.Date(2021, 1, 1, 0, 0, 0, 0, time.UTC), tick: time.Duration(c.TickNs)}
 	base := &vfBase{clock: clock, fail: map[int]bool{}, checkFail: map[int]bool{}, stopFail: map[int]bool{}}
 	for _, i := range c.StopFail {
 		base.stopFail[i] = true
@@ -310,6 +323,37 @@ func vfRunThrottle(c vfThrCase) *vfThrRun {
 			inSession = false
 		case vfCheck:
 			req(vfCheck, func() error { return th.CheckCanRecord() }, nil, nil, 0)
+		case vfEdge:
+			// look ahead on a copy of the bucket's state (restored after every probe) for the first instant at
+			// which a minimum-length recording of budget is available, and stop the clock 1 ns short of it
+			clock.quiet = true
+			probe := func(t time.Time) bool {
+				saved := *th.bucket
+				keep := clock.now
+				clock.now = t
+				a := th.bucket.Available()
+				*th.bucket = saved
+				clock.now = keep
+				return a >= c.Cfg.minLen()
+			}
+			if !probe(clock.now) {
+				lo := clock.now
+				hi := lo.Add(time.Duration(float64(c.Cfg.minLen()+2)/c.Cfg.rate()*1.02*float64(time.Second)) + time.Second)
+				if probe(hi) {
+					for hi.Sub(lo) > 1 {
+						mid := lo.Add(hi.Sub(lo) / 2)
+						if probe(mid) {
+							hi = mid
+						} else {
+							lo = mid
+						}
+					}
+					// the next reading of a ticking clock is the last instant below the threshold, the one after
+					// it the first instant at it
+					clock.now = lo.Add(-clock.tick)
+				}
+			}
+			clock.quiet = false
 		}
 	}
 	return run
@@ -346,7 +390,17 @@ func vfGenThrOps(t *rapid.T, c vfThrCfg, sessions bool) []vfOp {
 	frame := int64(time.Second) / int64(c.FPS)
 	B := int(c.capacity())
 	for i := 0; i < n; i++ {
-		switch rapid.IntRange(0, 9).Draw(t, "op") {
+		switch rapid.IntRange(0, 10).Draw(t, "op") {
+		case 10: // a request made 1 ns before (or, one reading of a ticking clock later, right when) a full clip of budget is there
+			ops = append(ops, vfOp{K: vfEdge})
+			if rapid.Bool().Draw(t, "edgeplus") {
+				ops = append(ops, vfOp{K: vfAdv, Dt: rapid.Int64Range(1, 2).Draw(t, "edgedt")})
+			}
+			if rapid.Bool().Draw(t, "edgestart") {
+				ops = append(ops, vfOp{K: vfStart})
+			} else {
+				ops = append(ops, vfOp{K: vfWrite, N: 1})
+			}
 		case 0, 1:
 			ops = append(ops, vfOp{K: vfAdv, Dt: vfGenDt(t, c)})
 		case 2, 3:
@@ -379,6 +433,7 @@ func vfGenC05(t *rapid.T) vfThrCase {
 	c := vfThrCase{Cfg: vfGenThrCfg(t)}
 	c.Sessions = rapid.Bool().Draw(t, "sessions")
 	c.Ops = vfGenThrOps(t, c.Cfg, c.Sessions)
+	c.TickNs = rapid.SampledFrom([]int64{0, 0, 0, 1, 2, 1000}).Draw(t, "tick")
 	return c
 }
 
@@ -388,7 +443,7 @@ func vfThrCaseOK(c vfThrCase) bool {
 	}
 	total := 0
 	for _, o := range c.Ops {
-		if o.K < 0 || o.K > 4 || o.Dt < 0 || o.N < 0 || o.N > 2000 {
+		if o.K < 0 || o.K > 5 || o.Dt < 0 || o.N < 0 || o.N > 2000 {
 			return false
 		}
 		total += o.N + 1
@@ -616,12 +671,13 @@ func vfGenC06(t *rapid.T) vfThrCase {
 		// frozen clock: no advance at all
 		ops := vfGenThrOps(t, c.Cfg, true)
 		for _, o := range ops {
-			if o.K != vfAdv {
+			if o.K != vfAdv && o.K != vfEdge {
 				c.Ops = append(c.Ops, o)
 			}
 		}
 	} else {
 		c.Ops = vfGenThrOps(t, c.Cfg, true)
+		c.TickNs = rapid.SampledFrom([]int64{0, 0, 0, 1, 2, 1000}).Draw(t, "tick")
 	}
 	// storage checks at arbitrary moments, some of them failing
 	if rapid.Bool().Draw(t, "checks") {
@@ -673,9 +729,12 @@ func vfRunC06(c vfThrCase) *kit.Result {
 	rate := c.Cfg.rate()
 	frozen := true
 	for _, o := range c.Ops {
-		if o.K == vfAdv && o.Dt > 0 {
+		if (o.K == vfAdv && o.Dt > 0) || o.K == vfEdge {
 			frozen = false
 		}
+	}
+	if c.TickNs > 0 {
+		frozen = false
 	}
 	// group base calls and events per caller request
 	perReq := make([][]vfBaseCall, len(run.reqK))
@@ -944,6 +1003,6 @@ func vfRunC06(c vfThrCase) *kit.Result {
 
 func TestVF_C06(t *testing.T) {
 	kit.Drive(t, "C06", "TestVF_C06",
-		"generated: request/clock schedules as in C05 restricted to caller-well-formed sessions (start; writes; stop), a quarter of them with a frozen clock, plus the wrapped recorder's start failing at generated ordinals. Oracle: (1) model-free invariants on the wrapped recorder's call trace and the event listener - bracket protocol, each caller request maps to an allowed shape (open: frame or cut; closed: nothing, failed start, restart = start+frame), exactly one event per suppressed start and per cut and none otherwise, stop forwarded iff a file is open, a cut file holds >= min-length frames, background/threshold/frame passed through unchanged; (2) budget sandwich from the forwarded frames alone: certainly-available budget (>= bucket - consumed, >= 0.99*rate*elapsed - 2 - consumed since any earlier point) forces forwarding / restart, certainly-unavailable budget (< min length by bucket - consumed + 1.01*rate*elapsed + 2 from any earlier point) forbids a (re)start; (3) exact counter model when the clock never advances. Non-trivial: a cut followed by a mid-trigger restart, or a failing start after throttling began.",
+		"generated: request/clock schedules as in C05 restricted to caller-well-formed sessions (start; writes; stop), a quarter of them with a frozen clock, the others with requests placed 1 ns before (or right when) a full clip of budget becomes available and, in half of these, a clock that moves on by 1 ns - 1 us at every reading (time passes while a request is served), plus the wrapped recorder's start failing at generated ordinals. Oracle: (1) model-free invariants on the wrapped recorder's call trace and the event listener - bracket protocol, each caller request maps to an allowed shape (open: frame or cut; closed: nothing, failed start, restart = start+frame), exactly one event per suppressed start and per cut and none otherwise, stop forwarded iff a file is open, a cut file holds >= min-length frames, background/threshold/frame passed through unchanged; (2) budget sandwich from the forwarded frames alone: certainly-available budget (>= bucket - consumed, >= 0.99*rate*elapsed - 2 - consumed since any earlier point) forces forwarding / restart, certainly-unavailable budget (< min length by bucket - consumed + 1.01*rate*elapsed + 2 from any earlier point) forbids a (re)start; (3) exact counter model when the clock never advances. Non-trivial: a cut followed by a mid-trigger restart, or a failing start after throttling began.",
 		vfGenC06, vfRunC06)
 }
